@@ -503,8 +503,10 @@ func filterpath(peer *peer, path, old *table.Path) *table.Path {
 		if !path.IsLocal() {
 			ignore = true
 			info := path.GetSource()
-			// if the path comes from eBGP peer
-			if info.AS != peer.AS() {
+			// if the path comes from eBGP peer: decided on the session it came
+			// in on (with local-as in use the AS of the peer the route is
+			// offered to says nothing about that)
+			if info.AS != info.LocalAS {
 				ignore = false
 			}
 			if info.RouteReflectorClient {
